@@ -238,8 +238,19 @@ def check_ack(ack_sink, r, out, log, arm):
             continue
         # the ack's own delimiters cannot be echoed; they may be replaced, nothing else may change
         cv = ''.join(' ' if c in delims else c for c in v)
-        if cv not in echoed and cv.rstrip() not in echoed and v not in echoed:
+        if cv.strip(' ') == '':
+            continue        # nothing but delimiters of the acknowledgement: there is nothing left to echo
+        if cv not in echoed and cv.rstrip() not in echoed and cv.strip(' ') not in echoed and v not in echoed:
             out.violate('ack', 'echo-altered', 'offending value %r is not echoed (delimiters aside) verbatim (echoed: %r)' % (v, echoed[:6]))
+            return None
+    for v in want_vals:
+        if any(c in v for c in '\r\n') or v != v.strip(' '):
+            continue
+        cv = ''.join(' ' if c in delims else c for c in v)
+        if cv != cv.strip(' ') and cv.strip(' ') != '' and cv in echoed and cv.strip(' ') not in echoed:
+            # the source value had no blank at its ends; replacing a delimiter there by a blank yields a value the
+            # acknowledgement's own map refuses (leading / trailing spaces) although the source value fitted
+            out.violate('ack', 'echo-blank-ended', 'offending value %r is echoed as %r: a blank end the source value did not have' % (v, cv))
             return None
     # (2) independent recount
     flat = [[s.id] + [tk.subele_term.join(c) for c in s.elements] for s in tk.segs]
